@@ -98,6 +98,9 @@ def build_segments(shape: Shape, hist: List[Dict[str, Any]], root: str, store_ki
     return segs
 
 
+_SEG_COUNTER = [0]
+
+
 def _write_files(root: str, files: Optional[Dict[str, str]]) -> None:
     if files is not None:
         mat.write_tree(root, files)
@@ -127,7 +130,11 @@ def _run_one(seg: Dict[str, Any], root: str, obs: Dict[int, Dict[str, Any]],
     seg2 = dict(seg)
     seg2.pop("files", None)
     if pristine_env is not None:
-        res = run_pristine(seg2, hashseed=pristine_env.get("hashseed"), cwd=pristine_env.get("cwd"))
+        hs = pristine_env.get("hashseed")
+        if hs == "vary":
+            _SEG_COUNTER[0] += 1
+            hs = str(1 + (_SEG_COUNTER[0] * 7919) % 100000)
+        res = run_pristine(seg2, hashseed=hs, cwd=pristine_env.get("cwd"))
     else:
         res = run_forked(seg2)
     if res.get("fatal"):
